@@ -298,7 +298,7 @@ def runQ (h : Hdr) (outs : List String) : Verdict :=
             (if toks.any isMisuse then ["use-after-close"] else []) ++
             (if toks.any isSync then ["partial-sync"] else []) ++
             (if maxChunks 0 0 toks > 1 then ["multichunk"] else []) ++
-            (if h.hdrw > 1 then ["multichunk-header"] else [])
+            (if h.hdrw > 1 && h.kind != "AB" then ["multichunk-header"] else [])
           .ok tags
 
 /-- `PD` lines: records pushed through the real `processSegment`/`PublishData` with the writers on
